@@ -70,8 +70,167 @@ def run(chk):
         sc.report(chk, 'C09', bad, sim, sent, meta)
         sims.append((sim, 'coalesced %d' % i))
     sc.compare_with_model(chk, sims, with_timers=True)
+    agent_cases(chk)
     chk.assumptions += ['TLS disabled; idle timer disabled in these runs (idle-timeout termination is covered by C14); keepalive timers enabled in the coalesced-read runs',
-                        'tcpcl.agent.Agent.shutdown/stop over several contacts is exercised separately (agent_shutdown cases)']
+                        'tcpcl.agent.Agent (shutdown/stop/stop_on_close over several contacts) is driven with real ContactHandlers on simulated sockets; each contact is brought to its state by a scripted peer and no peer answers after that']
+
+
+def agent_cases(chk):
+    ''' The agent over several contacts: a real tcpcl.agent.Agent with real ContactHandlers on simulated sockets;
+    random histories of bind / establish / contact terminates / contact closes / shutdown() / stop(), compared
+    with the Lean agent model op by op, plus independent monitors. '''
+    import tcpcl.agent as tagent
+    from tcpcl_util import GLib, FakeSock
+    LOOP = GLib.LOOP
+    rng, tier = chk.rng, chk.tier
+    reqs, runs = [], []
+    for case in range(200 if tier == 'quick' else 3000):
+        LOOP.reset()
+        soc = rng.random() < 0.4
+        cfg = tu.make_config(stop_on_close=soc)
+        ag = tagent.Agent(cfg, bus_kwargs=dict(conn=None, object_path='/verif/agent%d' % case))
+        stops = []
+        ag.set_on_stop(lambda: stops.append(True))
+        socks, hdls = [], []
+
+        def drain(h):
+            for _ in range(200):
+                srcs = [s2 for s2 in LOOP.pending() if getattr(s2.func, '__self__', None) is h
+                        and (s2.kind == 'idle' or (s2.kind == 'io' and s2.cond == GLib.IO_OUT))]
+                if not srcs:
+                    break
+                LOOP.fire(srcs[0])
+
+        def feed(h, sock, data):
+            src = [s2 for s2 in LOOP.pending('io') if getattr(s2.func, '__self__', None) is h and s2.cond == GLib.IO_IN]
+            if not src:
+                return
+            sock.rx_script = [data]
+            LOOP.fire(src[0])
+            sock.rx_script = []
+
+        def n_term(sock):
+            try:
+                return sum(1 for (m, _e) in tu.rfc_frames(bytes(sock.sent))[0] if m['k'] == 'sess_term')
+            except ValueError:
+                return 0
+
+        ops, outs, bad = [], [], []
+        nops = rng.choice([2, 3, 4, 6, 8])
+        kinds = ['bind', 'bind', 'establish', 'establish', 'contact_term', 'contact_closed', 'shutdown', 'stop']
+        for step in range(nops):
+            k = rng.choice(kinds) if hdls else 'bind'
+            if step == nops - 1 and rng.random() < 0.7:
+                k = rng.choice(['shutdown', 'stop', 'contact_closed'])
+            open_before = [i for i, sk in enumerate(socks) if not sk.closed]
+            sess_before = {i: bool(hdls[i]._in_sess) for i in open_before}
+            terms_before = [n_term(sk) for sk in socks]
+            stops_before = len(stops)
+            ret, raised = None, None
+            op = {'op': k}
+            if k == 'bind':
+                sk = FakeSock('c%d' % len(socks))
+                h = ag._bind_handler(config=cfg, sock=sk, toaddr=('192.0.2.1', 4556))
+                socks.append(sk)
+                hdls.append(h)
+                terms_before.append(0)
+                h.start()
+                op['id'] = len(socks) - 1
+            else:
+                i = rng.randrange(len(hdls))
+                op['id'] = i
+                h, sk = hdls[i], socks[i]
+                if k == 'establish':
+                    if sk.closed or h._in_sess:
+                        continue
+                    drain(h)
+                    feed(h, sk, tu.rfc_encode({'k': 'contact', 'flags': 0}))
+                    drain(h)
+                    feed(h, sk, tu.rfc_encode({'k': 'sess_init', 'keepalive': 0, 'seg_mru': 2 ** 64 - 1, 'xfer_mru': 2 ** 64 - 1,
+                                               'node': b'dtn://peer/'.hex(), 'ext': ''}))
+                elif k == 'contact_term':
+                    if sk.closed:
+                        continue
+                    try:
+                        h.terminate()
+                    except RuntimeError:
+                        pass
+                elif k == 'contact_closed':
+                    if sk.closed:
+                        continue
+                    if rng.random() < 0.5:
+                        feed(h, sk, b'')
+                    else:
+                        h.close()
+                elif k == 'shutdown':
+                    op = {'op': 'shutdown'}
+                    try:
+                        ret = bool(ag.shutdown())
+                    except Exception as err:
+                        raised = type(err).__name__
+                elif k == 'stop':
+                    op = {'op': 'stop'}
+                    try:
+                        ag.stop()
+                    except Exception as err:
+                        raised = type(err).__name__
+            for h in hdls:
+                drain(h)
+            closed_now = sorted(i for i in open_before if socks[i].closed)
+            term_now = sorted(i for i, sk in enumerate(socks) if n_term(sk) > terms_before[i])
+            out = {'closed': closed_now, 'sess_term': term_now, 'stopped': len(stops) - stops_before, 'ret': ret, 'raised': raised}
+            ops.append(op)
+            outs.append(out)
+            # ---- independent monitors
+            if raised:
+                bad.append(('C09:agent-%s-raises-%s' % (k, raised), 'Agent.%s() raised %s with contacts %s' % (k, raised, [str(x._state) for x in hdls])))
+            if k == 'stop' and not raised:
+                left = [i for i, sk in enumerate(socks) if not sk.closed]
+                if left:
+                    bad.append(('C09:agent-stop-left-contact-open', 'after Agent.stop() the contacts %s of %d are still open' % (left, len(socks))))
+            if k == 'shutdown' and not raised:
+                lazy = [i for i, sk in enumerate(socks) if not sk.closed and not hdls[i]._in_term]
+                if lazy:
+                    bad.append(('C09:agent-shutdown-contact-not-terminating', 'after Agent.shutdown() the open contacts %s were not asked to terminate' % lazy))
+                if ret is True and any(not sk.closed for sk in socks):
+                    bad.append(('C09:agent-shutdown-true-with-open-contacts', 'Agent.shutdown() answered True with open contacts'))
+            if k == 'shutdown':
+                cut = [i for i in closed_now if sess_before.get(i)]
+                if cut:
+                    bad.append(('C09:agent-closed-established-contact', 'shutdown() closed the established contacts %s instead of asking them to terminate' % cut))
+            if k in ('contact_closed', 'contact_term', 'establish', 'bind'):
+                other = [i for i in closed_now if not (k == 'contact_closed' and i == op.get('id'))]
+                if other:
+                    bad.append(('C09:agent-closed-other-contact', 'when contact %s %s the agent closed the other contacts %s (stop_on_close=%s, shutdown requested=%s)'
+                                % (op.get('id'), {'contact_closed': 'closed'}.get(k, k), other, soc, bool(ag._in_shutdown))))
+        chk.case({'agent': True, 'stop_on_close': soc, 'ops': [o['op'] for o in ops], 'contacts': len(socks)}, sample=(case < 2))
+        for o in ops:
+            chk.count('agent-op:' + o['op'])
+        for (sig, what) in bad:
+            chk.violation(sig, what, {'stop_on_close': soc, 'ops': ops, 'observed': outs})
+        reqs.append({'op': 'tcpcl.agent', 'stop_on_close': soc, 'ops': ops})
+        runs.append((soc, ops, outs))
+    try:
+        res = chk.driver(reqs)
+    except Exception as err:
+        chk.corr_break('model driver unavailable: %s' % str(err)[:300], {})
+        return
+    for r, (soc, ops, outs) in zip(res, runs):
+        if 'trace' not in r:
+            chk.corr_break('agent model rejected the op list: %s' % r, {'ops': ops})
+            continue
+        chk.cov['traces_validated_against_impl'] = chk.cov.get('traces_validated_against_impl', 0) + 1
+        for i, (ent, out) in enumerate(zip(r['trace'], outs)):
+            m = {'closed': sorted(o['closed'] for o in ent['out'] if 'closed' in o),
+                 'sess_term': sorted(o['sess_term'] for o in ent['out'] if 'sess_term' in o),
+                 'stopped': sum(1 for o in ent['out'] if 'stopped' in o),
+                 'ret': next((o['ret'] for o in ent['out'] if 'ret' in o), None), 'raised': None}
+            if ops[i]['op'] == 'contact_term':
+                out = dict(out, sess_term=[])      # the SESS_TERM of the contact's own termination is not an agent action
+            if m != out:
+                chk.corr_break('agent: model and implementation differ at op %d (%s)' % (i, ops[i]),
+                               {'stop_on_close': soc, 'ops': ops[:i + 1], 'impl': out, 'model': m})
+                break
 
 
 def replay(chk, path):
